@@ -28,6 +28,7 @@ import (
 type EvictionLimiter interface {
 	AllowEvict(pod *corev1.Pod) bool
 	Done(pod *corev1.Pod)
+	Cancel(pod *corev1.Pod)
 	Reset()
 	NodeLimitExceeded(node *corev1.Node) bool
 	TotalEvicted() uint
@@ -65,6 +66,12 @@ func (e *evictorProxy) AllowEvict(pod *corev1.Pod) bool {
 func (e *evictorProxy) Done(pod *corev1.Pod) {
 	if e.evictionLimiter != nil {
 		e.evictionLimiter.Done(pod)
+	}
+}
+
+func (e *evictorProxy) Cancel(pod *corev1.Pod) {
+	if e.evictionLimiter != nil {
+		e.evictionLimiter.Cancel(pod)
 	}
 }
 
@@ -107,6 +114,7 @@ func (e *evictorProxy) Evict(ctx context.Context, pod *corev1.Pod, opts framewor
 	} else {
 		succeeded := e.handle.evictPlugins[0].Evict(ctx, pod, opts)
 		if !succeeded {
+			e.Cancel(pod)
 			return false
 		}
 	}
